@@ -59,11 +59,12 @@ mod handle;
 mod negotiation;
 mod types;
 
+#[cfg(feature = "verif")]
+pub mod verif;
+
 #[cfg(test)]
 mod tests;
 
-#[cfg(feature = "verif")]
-pub mod verif;
 
 /// Logging target for the file.
 const LOG_TARGET: &str = "litep2p::notification";
